@@ -99,6 +99,11 @@ def plan(tier, ctx):
     shapes = [(40, 15, 100), (64, 15, 150), (48, 15, 64), (33, 15, 90), (100, 9, 120), (24, 15, 300), (17, 12, 40), (8, 15, 64), (1, 15, 16)]
     seeds = range(1, 9) if quick else range(1, 41)
     for var in ("04", "06"):
+        # per-lane long-code thresholds: two adjacent match tokens of exactly T bits in every lane pair, several bit-buffer fills
+        bcases = [[1, 16, 15, fill, 0, 200, lane, T] for lane in range(8) for T in range(26, 34) for fill in ((7,) if quick else (0, 3, 7))]
+        for i in range(0, len(bcases), 16):
+            qs.append(Query("x86/icf_%s/lanes/c%d" % (var, i // 16), "harness.C10.icf_x86:icf_query", dict(variant=var, cases=bcases[i:i + 16]),
+                            core=False, family="x86/encode_deflate_icf_" + var, weight=30))
         cases = [[sd, nt, ml, sd % 8, (sd * 3) % 7, ol] for sd in seeds for (nt, ml, ol) in shapes]
         for i in range(0, len(cases), 18):
             qs.append(Query("x86/icf_%s/c%d" % (var, i // 18), "harness.C10.icf_x86:icf_query", dict(variant=var, cases=cases[i:i + 18]),
